@@ -22,6 +22,18 @@ CHECKS = {
             "Trusted: TLC; the transcription tools/parser_table.py (its predictions are compared with the code as drift: 0 "
             "disagreements on 132k inputs); rendering of token classes to lexemes. Data-dependent parser branches are not modelled.",
             "DESIGN.md 4 C01"),
+    "C18": (["StrOps.tla", "Str.tla", "Str_Trace.tla"],
+            "TLA+ string algebra (reference operators over code-point sequences + driver machine mirroring the replace/join/"
+            "reverse loops of string.ckl) model-checked by TLC; exported cases replayed on the interpreter; TLC trace validation "
+            "of recorded calls on random adversarial strings",
+            "TLC checks the laws of the statement (split/join inverse, replace = leftmost non-overlapping, reverse involution, "
+            "idempotence of case mapping and trim, contains <=> find >= 0 <=> decomposition, starts/ends_with vs substrings, "
+            "chr/ord, interpolation padding) on all (s, t, r) over an adversarial alphabet up to the configured lengths and exports "
+            "33k cases replayed on the interpreter; 36k recorded calls on random strings of length 0..12 (separators, regex "
+            "metacharacters, quotes, backslash, tab, newline, braces, non-ASCII) are accepted by Str_Trace only if equal to StrOps.",
+            "Trusted: TLC, StrOps as the reading of the statement; the regex engine is not modelled (split only via escape_pattern); "
+            "rounding compared numerically; case mapping on ASCII + e-acute only.",
+            "DESIGN.md 4 C18"),
     "C20": (["LexerOps.tla", "Lexer.tla", "LexerMC.tla", "Parser.tla", "ParserTable.tla"],
             "TLC-checked scanner line invariant (LineIsStartLine vs reference LineOf) + replay of exported token lines; parser "
             "automaton names the offending token of syntax faults; planted runtime/module faults under random multi-line layouts",
